@@ -415,18 +415,18 @@ def gen_cases(ctx: Ctx):
 # ---------------------------------------------------------------------------------------------
 
 def e2e_files(spec):
-    """spec: {"ranks": [[(s,e),...], ...], "freq": 512} -> {file: events} (FLEX B/E pairs with TS counters).
-    Only Prep device events (plus one host slice) are written, and the generator keeps the starts of a rank
-    distinct: two consecutive device events of a pid with the same host ts make normalize.frequency_stats
-    divide by zero (reported separately; not a C13 matter)."""
-    from gen.scenario import Rank, TID_PREP
+    """spec: {"ranks": [[(s,e),...], ...], "freq": 512} -> {file: events} (FLEX B/E pairs with TS counters):
+    per interval one `Cmpt Prep` and one `Cmpt Exec` device event, plus one host slice per rank."""
+    from gen.scenario import Rank, TID_PREP, TID_EXEC
     files = {}
     for r, fam in enumerate(spec["ranks"]):
         rk = Rank(r, float(spec.get("freq", 512)), 1_000_000_000.0, 512 * (1000 + 77 * r))
         for k, (s, e) in enumerate(fam):
             s, e = float(Fraction(s)), float(Fraction(e))
             # TS1..TS5: [issue, prep start, prep end = exec start, exec end, done]
-            rk.dev_event(f"k{k}_{r} Cmpt Prep", TID_PREP + k, [s, s, e, e + 3, e + 4])
+            ts5 = [s, s, e, e + 3, e + 4]
+            rk.dev_event(f"k{k}_{r} Cmpt Prep", TID_PREP + k, ts5)
+            rk.dev_event(f"k{k}_{r} Cmpt Exec", TID_EXEC + k, ts5)
         rk.host_event("AIU Roundtrip", 77, 0.0, 400.0)
         files[f"trace_rank_{r}.json"] = rk.event_list()
     return files
@@ -476,12 +476,12 @@ def gen_e2e(ctx: Ctx):
     rng = ctx.rng
     for _ in range(ctx.n(40, 400)):
         R = rng.choice([1, 2, 3])
-        pool = sorted({rng.randint(10, 300) for _ in range(rng.randint(4, 9))})
+        pool = sorted({rng.randint(10, 300) for _ in range(rng.randint(3, 8))})
+        if len(pool) < 2:
+            pool = [10, 20]
         ranks = []
         for _r in range(R):
-            n = rng.randint(1, min(6, len(pool) - 1))
-            starts = sorted(rng.sample(pool[:-1], n))          # distinct starts per rank (see e2e_files)
-            fam = [(s, rng.choice([x for x in pool if x > s])) for s in starts]
+            fam = random_family(rng, rng.randint(1, 6), pool)     # equal starts, equal ends, touching, nesting
             ranks.append([(str(Fraction(s)), str(Fraction(e))) for s, e in fam])
         yield {"kind": "e2e", "spec": {"ranks": ranks, "freq": rng.choice([256, 512, 1024])}}
 
